@@ -12,7 +12,8 @@
     sel <tour|alps|rand> n (l i)*                         -> ok | bad:<clause>
     step <family> n (l i)* <ind off> k (l i <ind>)* gen lastImp bestFit <ind best>
   tune
-    tune <base|src|ga> esLayers term0 dsize <18 fields>   -> "<18 fields> <valid(false) before> <valid(true) after>"
+    tune <base|src|src-holdout|src-dss|src-other|ga> esLayers term0 dsize <18 fields>   (src-X: strategy X installed)
+      -> "<18 fields> <valid(false) before> <valid(true) after>"
   <ind> = fit age sig valid
 -/
 import Vita.C06.Decide
@@ -287,7 +288,9 @@ def handle (d : DState) (ts : List String) : DState × String :=
   | "tune" :: kind :: rest =>
     match (do
         let k ← (match kind with
-          | "base" => pure SearchKind.base | "src" => pure SearchKind.src | "ga" => pure SearchKind.ga
+          | "base" => pure SearchKind.base | "ga" => pure SearchKind.ga
+          | "src" => pure (SearchKind.src .asIs) | "src-holdout" => pure (SearchKind.src .holdout)
+          | "src-dss" => pure (SearchKind.src .dss) | "src-other" => pure (SearchKind.src .other)
           | _ => failure : Rd SearchKind)
         let esLayers ← rdNat; let term0 ← rdNat; let dsize ← rdNat
         let u ← rdEnv; rdEnd
